@@ -21,7 +21,7 @@ import (
 
 // C05 — one compiled expression may be used from many goroutines at once.
 
-const ruleC05 = "rapid under the race detector (-race build, GOMAXPROCS=all cores): expression (union of all fragments incl. unconstrained ones, function calls with closure-captured arguments, string-join, matches()/replace() through the shared pattern cache) x document x g in 2..8 goroutines released by a start barrier x per-goroutine context and action (Select / Evaluate on the SHARED *Expr, or Compile of the same text followed by Evaluate) x r in 3..20 repetitions; plus two iterators of the shared expression advanced alternately. Oracle: (1) the race detector's log does not grow during the case, (2) no goroutine panics differently from the sequential run and the process survives (a dying process is attributed through the case journal), (3) every repetition of every goroutine observes exactly what a freshly compiled expression returns sequentially, and for regex calls on literal arguments that sequential value equals the one computed independently with Go's regexp (what the call returns when run alone in a process). Non-trivial: >= 2 goroutines on one *Expr and the expression has a stateful operator or a function call; distinct by (expression, document, goroutine plan). The harness does not own the scheduler: interleavings are sampled, not enumerated."
+const ruleC05 = "rapid under the race detector (-race build, GOMAXPROCS=all cores): expression (union of all fragments incl. unconstrained ones, function calls with closure-captured arguments, string-join, matches()/replace() through the shared pattern cache) x document x g in 2..8 goroutines released by a start barrier x per-goroutine context and action (Select / Evaluate on the SHARED *Expr, or Compile of the same text followed by Evaluate - half of the compiling goroutines first compile a probe //N/@N whose name N consists of two CJK letters drawn afresh, so that several goroutines meet characters no Compile of the process has seen at the same moment; one case in eight with element and attribute names of letters drawn afresh from four scripts) x r in 3..20 repetitions; plus two iterators of the shared expression advanced alternately. Oracle: (1) the race detector's log does not grow during the case, (2) no goroutine panics differently from the sequential run and the process survives (a dying process is attributed through the case journal), (3) every repetition of every goroutine observes exactly what a freshly compiled expression returns sequentially, and for regex calls on literal arguments that sequential value equals the one computed independently with Go's regexp (what the call returns when run alone in a process). Non-trivial: >= 2 goroutines on one *Expr and the expression has a stateful operator or a function call; distinct by (expression, document, goroutine plan). The harness does not own the scheduler: interleavings are sampled, not enumerated."
 
 var (
 	uC05        = harness.NewUnit("C05", "rapid-goroutines", ruleC05)
@@ -45,6 +45,9 @@ type gPlan struct {
 	Ctx int    `json:"ctx"`
 	// Plain: this goroutine uses the navigator without the optional NamespaceURL() method
 	Plain bool `json:"plain,omitempty"`
+	// Probe (compile only): a name of letters no Compile of this process has met yet; in the
+	// concurrent phase the goroutine compiles //Probe/@Probe before the shared text
+	Probe string `json:"probe,omitempty"`
 }
 
 func planOf(l *harness.Live) (plans []gPlan, reps int) {
@@ -109,7 +112,7 @@ func raceLogTail() string {
 	return ""
 }
 
-func runPlan(e *xpath.Expr, text string, l *harness.Live, p gPlan) string {
+func runPlan(e *xpath.Expr, text string, l *harness.Live, p gPlan, concurrent bool) string {
 	d := l.Doc
 	flav := flavourFor(l, p.Plain)
 	ctx := d.Nodes[p.Ctx%len(d.Nodes)]
@@ -120,6 +123,20 @@ func runPlan(e *xpath.Expr, text string, l *harness.Live, p gPlan) string {
 	case "compile":
 		var e2 *xpath.Expr
 		var err error
+		if concurrent && p.Probe != "" {
+			pt := "//" + p.Probe + "/@" + p.Probe
+			func() {
+				defer func() {
+					if r := recover(); r != nil {
+						err = fmt.Errorf("panic: %v", r)
+					}
+				}()
+				e2, err = xpath.Compile(pt)
+			}()
+			if err != nil || e2 == nil {
+				return "compile error for " + pt + ": " + fmt.Sprint(err)
+			}
+		}
 		func() {
 			defer func() {
 				if r := recover(); r != nil {
@@ -201,7 +218,7 @@ func oracleC05(l *harness.Live) (c05Info, *harness.Failure) {
 			want[i] = obs
 			continue
 		}
-		want[i] = runPlan(fresh, l.Expr, l, p)
+		want[i] = runPlan(fresh, l.Expr, l, p, false)
 		if alone, _ := l.Params["alone"].(string); alone != "" && want[i] != alone {
 			return info, harness.Failf(alone, want[i], "a regex call on literals: the sequential result differs from the value the call has when it is the only one ever made (computed with Go's regexp) - something remembered from an earlier call leaks into it")
 		}
@@ -229,7 +246,7 @@ func oracleC05(l *harness.Live) (c05Info, *harness.Failure) {
 			}()
 			<-start
 			for r := 0; r < reps; r++ {
-				got[i] = append(got[i], runPlan(shared, l.Expr, l, plans[i]))
+				got[i] = append(got[i], runPlan(shared, l.Expr, l, plans[i], true))
 			}
 		}(i)
 	}
@@ -281,11 +298,31 @@ func TestC05Rapid(t *testing.T) {
 			base.NS = &xgen.NSOpts{Prefixes: []string{"", "p", "q", "r"}, URIs: []string{"", "u1", "u2"}}
 			nsmap = map[string]string{"p": rapid.SampledFrom([]string{"u1", "u2"}).Draw(rt, "bind-p"), "q": rapid.SampledFrom([]string{"u1", "u2"}).Draw(rt, "bind-q")}
 		}
+		// one case in eight: names made of letters drawn afresh from four scripts - whatever the
+		// lexer learns about a character the first time it meets it, it learns while other
+		// goroutines compile the same text
+		freshNames := !nsMode && rapid.IntRange(0, 7).Draw(rt, "fresh-names") == 7
+		if freshNames {
+			letter := rapid.OneOf(rapid.Int32Range(0x00C0, 0x00D6), rapid.Int32Range(0x0100, 0x0131), rapid.Int32Range(0x0410, 0x044F), rapid.Int32Range(0x4E00, 0x9FA5))
+			var names []string
+			for i := 0; i < 3; i++ {
+				n := string(rune(letter.Draw(rt, "letter")))
+				if rapid.Bool().Draw(rt, "two-letters") {
+					n += string(rune(letter.Draw(rt, "letter")))
+				}
+				names = append(names, n)
+			}
+			base.ElNames = names
+			base.AtNames = []string{string(rune(letter.Draw(rt, "letter"))), "x"}
+		}
 		shapedOpts, _ := xgen.Shaped(rt, base)
 		doc := xgen.Doc(rt, shapedOpts)
 		ctx := xgen.Context(rt, doc, 4)
 		g := xgen.NewG(rt, doc)
 		g.ExtraFuncs = true
+		if freshNames {
+			g.ElNames, g.AtNames = base.ElNames, base.AtNames
+		}
 		if nsMode {
 			g.ElNames = xgen.ElNames2
 			g.Prefixes = []string{"p", "q"}
@@ -373,6 +410,12 @@ func TestC05Rapid(t *testing.T) {
 			}
 			if nsMode {
 				plans[i].Plain = rapid.Bool().Draw(rt, "plainnav")
+			}
+			if plans[i].Op == "compile" && rapid.Bool().Draw(rt, "probe") {
+				// two letters out of 21 000: almost surely new to every Compile of this process, so
+				// what the lexer and parser keep about a character is written while others compile
+				cjk := rapid.Int32Range(0x4E00, 0x9FA5)
+				plans[i].Probe = string([]rune{rune(cjk.Draw(rt, "probe1")), rune(cjk.Draw(rt, "probe2"))})
 			}
 		}
 		reps := rapid.IntRange(3, 20).Draw(rt, "reps")
